@@ -110,18 +110,28 @@ def build_translator():
         raise SystemExit("translator build failed:\n" + out)
 
 
-def regen():
-    """Regenerate coq/Gen/*.v from /repo. Returns (ok, message)."""
+FUNCTION_UNITS = "Mathutil,Fee,CoinHours,Page,Droplet"
+
+
+def regen(units=True):
+    """Regenerate coq/Gen/*.v from /repo. `units`: True = the function units
+    (arithmetic core), or a list of unit names (e.g. ["Fee", "Schemas"]; imports
+    are closed automatically). Returns (ok, message)."""
     build_translator()
+    only = FUNCTION_UNITS if units is True else ",".join(units)
     with Lock("coq.lock"):
         rc, out = sh([os.path.join(BUILD, "translator"), "-repo", REPO, "-out", os.path.join(COQ, "Gen"),
-                      "-manifest", os.path.join(BUILD, "gen_manifest.json")], env=GOENV, timeout=600)
+                      "-only", only, "-manifest", os.path.join(BUILD, "gen_manifest_%d.json" % os.getpid())],
+                     env=GOENV, timeout=900)
     return rc == 0, out.strip()
 
 
 def gen_manifest():
+    p = os.path.join(BUILD, "gen_manifest_%d.json" % os.getpid())
     try:
-        return json.load(open(os.path.join(BUILD, "gen_manifest.json")))
+        m = json.load(open(p))
+        os.remove(p)
+        return m
     except Exception:
         return []
 
@@ -245,7 +255,8 @@ def harness(cmd, args, timeout=3000, env_extra=None):
 
 def cases_path(pid, seed, suffix=""):
     os.makedirs(CASES, exist_ok=True)
-    return os.path.join(CASES, "cases_%s_%s%s_%d.v" % (pid, seed, suffix, os.getpid()))
+    # the file name is a Coq module name: no '-' (search rounds use tags like "-s0")
+    return os.path.join(CASES, "cases_%s_%s%s_%d.v" % (pid, seed, re.sub(r"\W", "_", suffix), os.getpid()))
 
 
 def assemble_cases(path, header, data_file, template):
@@ -259,11 +270,21 @@ def assemble_cases(path, header, data_file, template):
 # ---------------------------------------------------------------- findings
 
 def load_known(pid):
-    try:
-        d = json.load(open(os.path.join(ROOT, "known_findings.json")))
-    except Exception:
-        return []
-    return [f for f in d.get("findings", []) if f.get("property") == pid and f.get("status") == "known"]
+    """Known findings of a property: the merged known_findings.json plus the
+    property's own fragment (so a fragment works before mkmanifest merges it)."""
+    fs = []
+    for p in (os.path.join(ROOT, "known_findings.json"), os.path.join(ROOT, "known_findings.d", pid + ".json")):
+        try:
+            fs += json.load(open(p)).get("findings", [])
+        except Exception:
+            pass
+    out, seen = [], set()
+    for f in fs:
+        k = json.dumps(f, sort_keys=True)
+        if f.get("property") == pid and f.get("status") == "known" and k not in seen:
+            seen.add(k)
+            out.append(f)
+    return out
 
 
 def match_known(known, case):
@@ -378,8 +399,9 @@ def tree_id():
 
 # ---------------------------------------------------------------- standard flow
 
-def _eval_groups(ctx, header, data_file, template, names, tag):
-    """Assemble and evaluate one cases file. Returns (ok, {name: [indices]}, raw output)."""
+def _eval_groups(ctx, header, data_file, template, names, tag, bools=()):
+    """Assemble and evaluate one cases file. Returns (ok, {name: [indices]}, raw output).
+    `bools`: names of printed booleans that must be `true`."""
     path = cases_path(ctx.pid, ctx.seed, tag)
     assemble_cases(path, header, data_file, template)
     ok, out, vals = coq_eval(path)
@@ -395,7 +417,51 @@ def _eval_groups(ctx, header, data_file, template, names, tag):
                 out += "\n[missing printed value %s]" % n
             else:
                 res[n] = zlist(vals[n])
+        for n in bools:
+            if vals.get(n) != "true":
+                ok = False
+                out += "\n[boolean %s is %s, expected true]" % (n, vals.get(n))
     return ok, res, out
+
+
+def _precompile_data(ctx, spec, data, seed, tag):
+    """spec["precompile_data"]: compile header + harness data once into a module
+    Sky.Cases.<mod> and hand the eval files a one-line `Require Import` instead of
+    the data itself (large data is then parsed once, not once per eval file).
+    Only definitions reach the .vo; the templates are still evaluated by coqc
+    on every run. Returns the path of the small data file (None on failure)."""
+    os.makedirs(CASES, exist_ok=True)
+    mod = "cdata_%s_%s%s_%d" % (ctx.pid, seed, re.sub(r"\W", "_", tag), os.getpid())
+    big = os.path.join(CASES, mod + ".v")
+    with open(big, "w") as f:
+        f.write(spec["header"] + "\n" + open(data).read() + "\n")
+    rc, out = sh(["coqc", "-noglob"] + COQFLAGS + [big], cwd=COQ, timeout=3000)
+    try:
+        os.remove(big)
+    except OSError:
+        pass
+    if rc != 0:
+        violation(ctx, {"broken": "harness data file does not compile", "log": out[-3000:]}, False,
+                  "harness data could not be loaded into Coq", tag)
+        return None
+    with open(data, "w") as f:
+        f.write("From Sky Require Import Cases.%s.\n" % mod)
+    ctx._precompiled = getattr(ctx, "_precompiled", []) + [os.path.join(CASES, mod)]
+    return data
+
+
+def _drop_precompiled(ctx):
+    for base in getattr(ctx, "_precompiled", []):
+        for ext in (".vo", ".vok", ".vos", ".glob"):
+            try:
+                os.remove(base + ext)
+            except OSError:
+                pass
+        try:
+            os.remove(os.path.join(os.path.dirname(base), "." + os.path.basename(base) + ".aux"))
+        except OSError:
+            pass
+    ctx._precompiled = []
 
 
 def standard_run(ctx, spec):
@@ -413,11 +479,13 @@ def standard_run(ctx, spec):
       trusted_base  list of strings;  assumptions  list of strings
       search_seeds  number of extra seeds tried when a proof/correspondence broke
       extra_args    extra harness arguments
+      precompile_data  True: compile header + harness data once (Sky.Cases.<mod>) and Require it from both eval files
+      case_of       optional fn(side_json, group, index) -> flat case dict (default: side_json["cases"][group][index])
     """
     pid = ctx.pid
     broke = []  # (what, detail) : proof / translation / correspondence breaks
     if spec.get("uses_gen"):
-        ok, msg = regen()
+        ok, msg = regen(spec["uses_gen"])
         if not ok:
             broke.append(("translation", msg[-1500:]))
             ctx.notes.append("translator: " + msg[-500:])
@@ -450,16 +518,40 @@ def standard_run(ctx, spec):
             return None
         sj = json.load(open(side))
         cases = sj.get("cases", {})
-        # 1. the property itself on the implementation's outputs
+        data = _precompile_data(ctx, spec, data, seed, tag) if spec.get("precompile_data") else data
+        if data is None:
+            return None
         pnames = [v[1] for v in groups.values() if v[1]]
-        pok, pres, pout = _eval_groups(ctx, spec["header"], data, spec["prop"], pnames, tag + "p")
-        if not pok:
-            violation(ctx, {"broken": "property evaluation file does not compile", "log": pout[-3000:]}, False,
-                      "decidable property could not be evaluated", tag)
+        mnames = [v[0] for v in groups.values() if v[0]]
+        can_corr = bool(mnames) and not any(b[0] == "translation" for b in broke)
+        pres, cres_, pok, cok, done = {}, {}, True, True, False
+        if can_corr and spec.get("combined", True):
+            # one coqc run evaluates both the property and the correspondence (the
+            # data file dominates the cost); fall back to separate runs if it fails
+            both = os.path.join(BUILD, "tmpl_%s_%d.v" % (pid, os.getpid()))
+            open(both, "w").write(open(os.path.join(COQ, "Corr", spec["prop"])).read() + "\n" + open(os.path.join(COQ, "Corr", spec["corr"])).read())
+            tmpl = "\n" + open(both).read()
+            os.remove(both)
+            ok2, res2, out2 = _eval_groups(ctx, spec["header"] + "\n" + spec.get("gen_header", ""), data, tmpl, pnames + mnames, tag + "b", spec.get("must_be_true", ()))
+            if ok2:
+                pres = {n: res2[n] for n in pnames}
+                cres_ = {n: res2[n] for n in mnames}
+                done = True
+        if not done:
+            # 1. the property itself on the implementation's outputs
+            pok, pres, pout = _eval_groups(ctx, spec["header"], data, spec["prop"], pnames, tag + "p")
+            if not pok:
+                violation(ctx, {"broken": "property evaluation file does not compile", "log": pout[-3000:]}, False,
+                          "decidable property could not be evaluated", tag)
+            # 2. correspondence model/Gen vs implementation
+            if can_corr:
+                cok, cres_, cout = _eval_groups(ctx, spec["header"] + "\n" + spec.get("gen_header", ""), data, spec["corr"], mnames, tag + "c", spec.get("must_be_true", ()))
+                if not cok:
+                    broke.append(("correspondence", "correspondence file does not compile:\n" + cout[-2000:]))
         nfail = 0
         for g, (mn, pn) in groups.items():
             for i in pres.get(pn, []) if pn else []:
-                case = cases.get(g, [])[i] if i < len(cases.get(g, [])) else {"index": i}
+                case = spec["case_of"](sj, g, i) if spec.get("case_of") else (cases.get(g, [])[i] if i < len(cases.get(g, [])) else {"index": i})
                 kf = match_known(known, dict(case, group=g))
                 if kf:
                     known_finding(ctx, kf["what"])
@@ -470,18 +562,11 @@ def standard_run(ctx, spec):
                 violation(ctx, {"group": g, "case": case, "seed": seed, "tier": tier,
                                 "replay_cmd": "./check %s --replay <this file>" % pid},
                           True, "property fails on the implementation: " + desc, tag + "-%s%d" % (g, i))
-        # 2. correspondence model/Gen vs implementation
-        mnames = [v[0] for v in groups.values() if v[0]]
         nmis = 0
-        cok = True
-        if mnames and not any(b[0] == "translation" for b in broke):
-            cok, cres, cout = _eval_groups(ctx, spec["header"] + "\n" + spec.get("gen_header", ""), data, spec["corr"], mnames, tag + "c")
-            if not cok:
-                broke.append(("correspondence", "correspondence file does not compile:\n" + cout[-2000:]))
+        if can_corr and cok:
             for g, (mn, pn) in groups.items():
-                idx = cres.get(mn, []) if (cok and mn) else []
-                for i in idx:
-                    case = cases.get(g, [])[i] if i < len(cases.get(g, [])) else {"index": i}
+                for i in (cres_.get(mn, []) if mn else []):
+                    case = spec["case_of"](sj, g, i) if spec.get("case_of") else (cases.get(g, [])[i] if i < len(cases.get(g, [])) else {"index": i})
                     if match_known(known, dict(case, group=g)):
                         continue
                     nmis += 1
@@ -492,6 +577,7 @@ def standard_run(ctx, spec):
                 os.remove(f)
             except OSError:
                 pass
+        _drop_precompiled(ctx)
         return sj, nfail, nmis
 
     r = one_round(ctx.seed, ctx.tier, "")
